@@ -161,6 +161,18 @@ def _run_idx(case):
                 d.write(op[1])
             elif op[0] == 'x':
                 d.clear()
+            elif op[0] == 'r':
+                # a new wrapper on the same datasets
+                if case['h5']:
+                    s.close_dataset('d')
+                    ds = s.open_dataset(path, 'r+', 'd')
+                    df = ds['df']
+                    f = df['f']
+                    d = f.data
+                    assert type(d).__name__ == 'WriteableIndexedFieldArray'
+                else:
+                    d = fld.WriteableIndexedFieldArray(case['cs'], f.indices, f.values)
+                    f._data_wrapper = d
             else:
                 raise ValueError(op)
         if case['h5']:
@@ -293,8 +305,10 @@ def to_val(case):
                 ops.append([1])
             elif op[0] == 'w':
                 ops.append([2, [_b(s) for s in op[1]]])
-            else:
+            elif op[0] == 'x':
                 ops.append([3])
+            else:
+                ops.append([4])
         return [1, case['h5'], case['cs'], ops, [list(e) for e in case.get('extra', [])]]
     dt = case['dt']
     parts = [[dt_code(pdt), [enc_value(pdt, v) for v in vals]] for pdt, vals in case['parts']]
@@ -396,6 +410,9 @@ def _idx_trace(case):
         if op[0] == 'x':
             f.add('clear-with-staged-data' if (vi or ii) else 'clear')
             nind = 0
+        if op[0] == 'r':
+            f.add('new-wrapper-with-staged-data' if (vi or ii) else 'new-wrapper(reopen r+)-then-append')
+            vi = ii = 0
     return f
 
 
@@ -546,6 +563,9 @@ def gen_idx(tier, rng):
                 yield {'k': 'idx', 'h5': h5, 'cs': cs, 'ops': [['p', a], ['c'], ['c'], ['p', b], ['c']], 'extra': []}
                 # clear after a completed write, then write again
                 yield {'k': 'idx', 'h5': h5, 'cs': cs, 'ops': [['w', a], ['x'], ['w', b]], 'extra': []}
+                # a new wrapper (HDF5: dataset closed and reopened 'r+') continues the column
+                yield {'k': 'idx', 'h5': h5, 'cs': cs, 'ops': [['w', a], ['r'], ['w', b]], 'extra': []}
+                yield {'k': 'idx', 'h5': h5, 'cs': cs, 'ops': [['p', a], ['c'], ['r'], ['p', b], ['p', a], ['c']], 'extra': []}
     # 4. structured random: longer sequences, chunk sizes around the byte / entry totals
     pool = ['', '', 'a', 'zz', 'é', '€', '\U0001F600', 'hello', 'x' * 7, 'ééé']
     for _ in range(1500 if big else 250):
@@ -598,9 +618,11 @@ def _plain_histories(dt, seq, src=None):
     src = src or dt
     seq = list(seq)
     yield 'write', [[src, seq]]
-    for comp in compositions(len(seq)):
-        if comp:                         # at least one write_part call
-            yield 'parts', [[src, p] for p in _split(seq, comp)]
+    comps = [c for c in compositions(len(seq)) if c]      # at least one write_part call
+    if len(seq) > 4:                     # long sequences: a spread of partitions, not all 2^(n-1)
+        comps = comps[::max(1, len(comps) // 12)]
+    for comp in comps:
+        yield 'parts', [[src, p] for p in _split(seq, comp)]
     if len(seq) <= 2:
         for comp in compositions(len(seq)):
             parts = _split(seq, comp)
